@@ -6,6 +6,7 @@ import WpModel.Model.Wire
 import WpModel.Model.StyleDoc
 import WpModel.Model.StyleMemo
 import WpModel.Model.C06Branches
+import WpModel.Model.RatioCache
 
 namespace Wp.Drive.Cascade
 open Wp Wp.Cascade Wp.Computed Wp.Style Wp.StyleDoc
@@ -189,8 +190,16 @@ def cascKv? : Sx → Option (String × Casc)
   | .list [.atom k, v] => (casc? v).map (fun v => (k, v))
   | _ => none
 
-/-- `(pseudo|none (key casc)…)` -/
+/-- `(% ex ch)`: the style's own character ratios. -/
+def ratios? : Sx → Option (Rat × Rat)
+  | .list [.atom "%", ex, ch] => do pure (← ex.rat?, ← ch.rat?)
+  | _ => none
+
+/-- `(pseudo|none [(@ attr…)] [(% ex ch)] (key casc)…)` -/
 def elem? : Sx → Option Elem
+  | .list (pseudo :: .list (.atom "@" :: attrs) :: .list [.atom "%", ex, ch] :: kvs) => do
+    pure { pseudo := ← optOf Sx.atom? pseudo, cascaded := ← allSome cascKv? kvs, attrs := ← allSome kv? attrs,
+           ratios := some (← ex.rat?, ← ch.rat?) }
   | .list (pseudo :: .list (.atom "@" :: attrs) :: kvs) => do
     pure { pseudo := ← optOf Sx.atom? pseudo, cascaded := ← allSome cascKv? kvs, attrs := ← allSome kv? attrs }
   | .list (pseudo :: kvs) => do
@@ -204,11 +213,20 @@ def sheetKind? : Sx → Option SheetKind
   | .atom "author" => some .author | .atom "user" => some .user
   | _ => none
 
+/-- The `media` attribute: `none` (no attribute test), `(attr <code point>…)` = the raw attribute
+text, from which the model derives the list (`attrMedia`), or an already split list. -/
+def mediaAttr? : Sx → Option (Option (List String))
+  | .atom "none" => some none
+  | .list (.atom "attr" :: codes) => do
+    let codes ← allSome Sx.nat? codes
+    pure (some (attrMedia (String.ofList (codes.map Char.ofNat))))
+  | x => (strList? x).map some
+
 def docSheet? : Sx → Option DocSheet
   | .list [kind, media, .list rules] => do
-    pure { kind := ← sheetKind? kind, media := ← optOf strList? media, rules := ← allSome srule? rules }
+    pure { kind := ← sheetKind? kind, media := ← mediaAttr? media, rules := ← allSome srule? rules }
   | .list [kind, media, .list rules, .list [.atom mime, isLink, hasHref, rels, fetchOk]] => do
-    pure { kind := ← sheetKind? kind, media := ← optOf strList? media, rules := ← allSome srule? rules,
+    pure { kind := ← sheetKind? kind, media := ← mediaAttr? media, rules := ← allSome srule? rules,
            elem := { mime := mime, isLink := ← isLink.bool?, hasHref := ← hasHref.bool?, rels := ← strList? rels,
                      fetchOk := ← fetchOk.bool? } }
   | _ => none
@@ -235,10 +253,28 @@ def docElem? : Sx → Option DocElem
   | .list [.list attrs, .list ms, .list elemAttrs] => do
     pure { attrs := ← allSome attrBlock? attrs, hits := ← allSome matchRef? ms,
            elemAttrs := ← allSome kv? elemAttrs }
+  | .list [.list attrs, .list ms, .list elemAttrs, r] => do
+    pure { attrs := ← allSome attrBlock? attrs, hits := ← allSome matchRef? ms,
+           elemAttrs := ← allSome kv? elemAttrs, ratios := some (← ratios? r) }
   | _ => none
 
 def showKeys (f : String → Except CErr Val) (keys : List String) : String :=
   " ".intercalate (keys.map (fun k => k ++ "=" ++ showValE (f k)))
+
+/-! ### character_ratio cache -/
+
+def measureRow? : Sx → Option (Nat × Rat × Rat)
+  | .list [sid, ex, ch] => do pure (← sid.nat?, ← ex.rat?, ← ch.rat?)
+  | _ => none
+
+def ratioReq? : Sx → Option RatioCache.Req
+  | .list [sid, .atom key, .atom ch] => do pure { style := ← sid.nat?, key := key, character := ch }
+  | _ => none
+
+def measureOf (table : List (Nat × Rat × Rat)) : RatioCache.Measure := fun s isEx =>
+  match table.find? (fun row => row.1 == s) with
+  | some (_, ex, ch) => if isEx then ex else ch
+  | none => 0
 
 /-! ### dispatcher -/
 
@@ -331,6 +367,10 @@ def handle (cmd : String) (args : List Sx) : Option String :=
     let c ← StyleMemo.ctxOf ex ch chain
     pure (" ".intercalate ((keys.zip (StyleMemo.readSeq c [] keys)).map
       (fun p => p.1 ++ "=" ++ showValE p.2)))
+  | "ratioseq", [.list table, .list reqs] => do
+    let table ← allSome measureRow? table
+    let reqs ← allSome ratioReq? reqs
+    pure (" ".intercalate ((RatioCache.runSeq (measureOf table) {} reqs).map (renderExcept showRat)))
   | "docstyle", [doc, ex, ch, .list path, pseudo, .list keys] => do
     let doc ← doc? doc
     let ex ← ex.rat?
